@@ -874,6 +874,25 @@ func (env *SpecEnv) call(x *SCall) (Val, error) {
 			return Val{}, err
 		}
 		return Val{T: vc.fromIface(v.T, ty), S: vc.sorts.sortOf(ty), Typ: ty}, nil
+	case "haskey":
+		// haskey(m, k): key k is present in Go map m
+		if len(x.Args) != 2 {
+			return Val{}, fmt.Errorf("haskey takes two arguments")
+		}
+		m, err := env.term(x.Args[0])
+		if err != nil {
+			return Val{}, err
+		}
+		k, err := env.term(x.Args[1])
+		if err != nil {
+			return Val{}, err
+		}
+		mt, ok := m.Typ.Underlying().(*types.Map)
+		if !ok {
+			return Val{}, fmt.Errorf("haskey on non-map")
+		}
+		has, _ := vc.mapHeaps(mt)
+		return Val{T: "(and (not (= " + m.T + " 0)) (select (select " + vc.heapGet(env.cur, has) + " " + m.T + ") " + k.T + "))", S: SBool, Typ: boolT}, nil
 	case "freshl":
 		// freshl(r): reference r was allocated after the enclosing loop was entered (loop invariants only)
 		if env.enclosingLoop() == nil {
